@@ -448,6 +448,10 @@ def check(run):
                       'composed read of the exact count')
     if nrd < 5:
         run.broke('fewer than 5 reads completing in negotiation steps found (%d)' % nrd)
+    run.clause('no read of zero bytes: a field whose length comes from the client (number of methods, host-name length minus what was read already) is read only when something is left to read - the simulated socket parks an empty read until the next packet, and the client that sent a complete request waits forever for its reply')
+    nz = engines.reads_never_empty(run, [g_ for g_ in fx.repo_functions() if q.top_function(fx, g_).cls == C], rule='R4')
+    if nz < 2:
+        run.broke('fewer than 2 reads of a computed length in socks_connection (%d; the method list and the rest of the host name confirmed by hand)' % nz)
     run.clause('a request that names its address by host name is carried out like one that names it by IP address: the name path dispatches on the command to the same handlers as the address path (sibling agreement)')
     r1_ = fx.fn1(C + '::on_request1')
     rdl_ = fx.fn1(C + '::on_request_domain_lookup')
